@@ -198,6 +198,16 @@ def run(F, chk):
         b = m.get("base")
         return _paths.THIS if b is None else env.path(b)
 
+    # methods of the partition that switch the flag on unconditionally (a statement of the body itself, not nested in a branch)
+    flag_setters = set()
+    for g in F.fns.values():
+        if g.get("cls") == PB and is_node(g.get("body")) and g["body"]["k"] == "Compound":
+            for st_ in g["body"].get("body", []):
+                if any(x["k"] == "Return" for x in walk(st_)):
+                    break  # an early return in front of the assignment makes it conditional
+                if st_["k"] == "Assign" and st_["op"] == "=" and is_node(st_["l"]) and st_["l"]["k"] == "Member" and \
+                        st_["l"].get("name") == "hasFaces" and is_node(st_["r"]) and st_["r"].get("val") in (1, True):
+                    flag_setters.add(g["id"])
     n4 = 0
     for fn in sorted(F.fns.values(), key=lambda f: f["id"]):
         if not fn.get("body") or fn.get("tmpl") == "pattern" or not (fn.get("file") or "").startswith(("src/", "include/")):
@@ -207,6 +217,10 @@ def run(F, chk):
         fills, flags = [], []
         env = None
         for n in walk(fn["body"]):
+            if n["k"] == "Call" and n.get("fid") in flag_setters and is_node(n.get("recv")):
+                env = env or _paths.PathEnv(F, fn)
+                flags.append((n, env.path(n["recv"])))
+                continue
             tgt = src = None
             if n["k"] == "OpCall" and n.get("op") == "=" and len(n.get("args", [])) == 2:
                 tgt, src = n["args"]
